@@ -45,3 +45,24 @@ func TestVerifReplayF13Callback(t *testing.T) {
 			r.Status, rd.res.ReadPromise.Promise.State)
 	}
 }
+
+func TestVerifReplayF13Subscription(t *testing.T) {
+	h := newVfHarness(t)
+	c := h.submit(&t_api.Request{Kind: t_api.CreatePromise, CreatePromise: &t_api.CreatePromiseRequest{Id: "p", Timeout: 1 << 40}})
+	h.run(1000, c)
+	done := h.submit(&t_api.Request{Kind: t_api.CompletePromise, CompletePromise: &t_api.CompletePromiseRequest{Id: "p", State: promise.Resolved}})
+	h.tick(1001)
+	reg := h.submit(&t_api.Request{Kind: t_api.CreateSubscription, CreateSubscription: &t_api.CreateSubscriptionRequest{Id: "s", PromiseId: "p", Timeout: 1 << 40, Recv: []byte(`"default"`)}})
+	h.aio.hold = func(s *t_aio.Submission) bool {
+		return s.Store != nil && s.Store.Transaction.Commands[0].Kind == t_aio.UpdatePromise
+	}
+	h.tick(1001)
+	h.run(1001, done, reg)
+	if done.err != nil || reg.err != nil {
+		t.Fatalf("unexpected errors %v %v", done.err, reg.err)
+	}
+	r := reg.res.CreateSubscription
+	if (r.Status == t_api.StatusOK || r.Status == t_api.StatusCreated) && r.Promise != nil && r.Promise.State == promise.Pending && r.Callback == nil {
+		t.Fatalf("VERIF-REPRODUCED F13: subscription acknowledged with status %d and a PENDING promise, but the promise is completed and no subscription exists", r.Status)
+	}
+}
